@@ -186,6 +186,8 @@ pub struct Explorer {
     pub is_known: Arc<dyn Fn(&Violation) -> bool + Send + Sync>,
     pub known_hits: Arc<Mutex<std::collections::BTreeMap<String, u64>>>,
     pub sample_every: u64,
+    /// C03: a panic (or exhausted work budget) inside the subject is itself the violation
+    pub panic_to_violation: Option<fn(&str, &str) -> Violation>,
 }
 
 impl Explorer {
@@ -193,7 +195,7 @@ impl Explorer {
         let watches = (0..threads).map(|_| Watch { start_ms: AtomicU64::new(0), item: Mutex::new(None) }).collect();
         Self {
             stats: Arc::new(Stats::new()), threads, t0: Instant::now(), deadline_s, max_unknown: 8,
-            watches: Arc::new(watches), is_known, known_hits: Arc::new(Mutex::new(Default::default())), sample_every: 0,
+            watches: Arc::new(watches), is_known, known_hits: Arc::new(Mutex::new(Default::default())), sample_every: 0, panic_to_violation: None,
         }
     }
 
@@ -213,6 +215,8 @@ impl Explorer {
             if m.is_none() { *m = Some(format!("replay divergence in scenario {}: {} (choices {:?})", sc.name, d, ch.taken)); }
             self.stats.stop.store(true, Ordering::Relaxed);
         }
+        let mut r = r;
+        if let (Some(p), Some(f)) = (r.panic.as_ref(), self.panic_to_violation) { r.violations.push(f(p, &format!("scenario {}", &sc.name[..sc.name.len().min(60)]))); }
         if let Some(p) = r.panic {
             local.panics += 1;
             let mut ps = self.stats.panic_samples.lock().unwrap();
